@@ -101,6 +101,12 @@ def expat_structure(doc, qname_attrs=()):
         stack.append([len(stack), ns, ln, [], attrs])
         res.append(stack[-1])
     def end(name):
+        if qname_attrs == "auto":
+            # character data that reads as a QName whose prefix is bound in the scope of the element (its own declarations are
+            # still in force here: expat reports their end after the end of the element)
+            m = re.match(r"^([A-Za-z_][\w.-]*):([A-Za-z_][\w.-]*)$", "".join(stack[-1][3]).strip())
+            if m and scope.get(m.group(1)):
+                stack[-1][3][:] = ["{%s}%s" % (scope[m.group(1)][-1], m.group(2))]
         stack.pop()
     def chars(d):
         if stack:
